@@ -1,0 +1,75 @@
+//go:build verif
+
+package asp
+
+// Verification hook for property C17 (packages cannot mutate each other's values). Add-only; compiled only
+// with -tags verif. Nothing here changes behaviour: it calls the same entry points as parse.newAspParser and
+// the real parse step, and serialises what they produce with the serialiser of verif_c16.go.
+
+import (
+	"github.com/thought-machine/please/rules"
+	"github.com/thought-machine/please/src/core"
+)
+
+// VerifC17EvalPreloaded interprets the BUILD files `builds` in order (or concurrently) on ONE fresh parser after
+// loading, through Parser.LoadBuiltins, first builtins.build_defs and then each file of `preload` - exactly what
+// parse.newAspParser does for the built-in rules and for the files listed in `[parse] preloadbuilddefs`.
+// The public top-level names of a preloaded file end up in the interpreter's root scope, which every package sees.
+func VerifC17EvalPreloaded(preload []VerifC16File, builds []VerifC16File, concurrent bool) (out []VerifC16Result, err error) {
+	state := core.NewDefaultBuildState()
+	if state.Config.Parse.NumThreads < 4 {
+		state.Config.Parse.NumThreads = 4
+	}
+	p := NewParser(state)
+	src, err := rules.ReadAsset("builtins.build_defs")
+	if err != nil {
+		return nil, err
+	}
+	if err := p.LoadBuiltins("builtins.build_defs", src); err != nil {
+		return nil, err
+	}
+	for _, f := range preload {
+		if err := p.LoadBuiltins(f.Name, []byte(f.Src)); err != nil {
+			return nil, err
+		}
+	}
+	out = make([]VerifC16Result, len(builds))
+	scopes := make([]*scope, len(builds))
+	run := func(i int) {
+		f := builds[i]
+		out[i].Name = f.Name
+		p.limiter.Acquire()
+		defer p.limiter.Release()
+		stmts, err := p.ParseData([]byte(f.Src), f.Name+"/BUILD")
+		if err != nil {
+			out[i].Err = "parse: " + verifShort(err)
+			return
+		}
+		s, err := p.interpreter.interpretAll(core.NewPackage(f.Name), nil, nil, 0, stmts)
+		if err != nil {
+			out[i].Err = verifShort(err)
+			return
+		}
+		scopes[i] = s
+		out[i].After = verifGlobals(s)
+	}
+	if concurrent {
+		done := make(chan struct{}, len(builds))
+		for i := range builds {
+			go func() { run(i); done <- struct{}{} }()
+		}
+		for range builds {
+			<-done
+		}
+	} else {
+		for i := range builds {
+			run(i)
+		}
+	}
+	for i, s := range scopes {
+		if s != nil {
+			out[i].Final = verifGlobals(s)
+		}
+	}
+	return out, nil
+}
